@@ -13,7 +13,9 @@ BASELINE_CMD = ("cd /repo && /venv/bin/python -m pytest -ra -q -p no:cacheprovid
 E1_NOTE = ("Trusted base: the harness (vf/), CPython, and that an in-process "
            "main.main() run equals a fresh `python main.py` (re-checked by a "
            "subprocess conformance set in every run). Bounded: closed worlds of <=4-5 "
-           "tasks x <=2 invocations on <=2 workers/pools; bundled policies only.")
+           "tasks x <=2 invocations on <=2 workers/pools; bundled policies, plus (for "
+           "the simulator-side properties) a tape-driven scheduler that enumerates "
+           "every legal decision sequence within a deviation bound (vf/adv.py).")
 
 CHECKS = {
     "C01": dict(engine="E1", technique="explicit-state exploration of the real simulator "
@@ -42,9 +44,10 @@ CHECKS = {
                 text="Every run of every world returns via SIMULATOR_END <= loop "
                      "timeout without exception/livelock; work-conserving policies "
                      "finish every task.", ref="5/C05", note=E1_NOTE),
-    "C06": dict(engine="E1", technique="explicit-state exploration of the real simulator; "
-                "reference lifecycle automaton on every transition + dead-set fixpoint "
-                "at the end",
+    "C06": dict(engine="E2+E1", technique="explicit-state BFS over operation histories "
+                "of real TaskGraphs with a reference automaton per task; explicit-state "
+                "exploration of the real simulator with the same automaton on every "
+                "transition + dead-set fixpoint at the end",
                 text="Every observed transition is an edge of the reference automaton; "
                      "every task that can no longer receive its inputs ends CANCELLED "
                      "with a TASK_CANCEL row and never starts; TASK_GRAPH_FINISHED rows "
@@ -63,7 +66,8 @@ E23_NOTE = ("Trusted base: the harness (vf/), CPython; the reference models are 
             "Bounded by the stated depth / size; all on the real classes of /repo.")
 
 CHECKS.update({
-    "C04": dict(engine="E2", technique="explicit-state BFS over operation histories on "
+    "C04": dict(engine="E2", technique="explicit-state BFS over operation histories "
+                "(pool, bare Worker, several work profiles, bare Resources) on "
                 "the real Resources/Worker/WorkerPool objects with a reference ledger",
                 text="All histories of place / place-in-batch / remove / load / evict / "
                      "step / copy / deepcopy (full alphabet depth 4 quick / 5 thorough; "
